@@ -43,4 +43,19 @@ PROPS = {
         ],
         "assumptions": ["map values are opaque; keys are strings (code-point lists)", "aliases share one mapVal, so a history is the interleaving of all aliases' operations"],
     },
+    "C17": {
+        "modules": ["EvyV.Props.C17", "EvyV.Props.C17Sym"],
+        "hx": ["c17"],
+        "technique": "Lean 4 proofs: symbol-table invariant for all Push/Pop/Define/Resolve histories; soundness of a bytecode verifier (BC.verify) for every execution path; translation validation of the real compiler's output by the proved verifier",
+        "level_text": "(1) symbol.go is modelled in Lean and an invariant proved for every operation history: simultaneously resolvable locals have pairwise distinct slots, globals likewise, and LocalCount bounds every local slot handed out. (2) A bytecode verifier (decode, operand ranges, jump targets, stack-height certificate) is proved sound for the abstract stack machine: on every path of any length the height at an instruction is the certified one, no instruction underflows, every reached offset decodes and the stack is empty at exit. (3) Each run compiles thousands of generated programs (and >64 KiB ones) with the real compiler, runs the proved verifier in Lean on the emitted bytes, executes them on the real VM (recover, stack pointer via the verif hook) and compares all symbol-table histories up to length 6 with the real table.",
+        "level_note": "Trusted: Lean kernel; the stack effects per opcode in Model/Bytecode.lean are read off vm.go by hand (the opcode table itself is regenerated and checked by the obligation opcodes_covered); the fused treatment of OpStepRange/OpIterRange + OpJumpOnFalse. Type-tag panics in the VM (popNumVal on a string) are outside the verifier and covered by running the real VM. The theorem is per emitted program (translation validation), not a proof that the compiler always emits verifiable code.",
+        "obligations": [
+            "EvyV.C17.opcodes_covered", "EvyV.C17.verify_sound", "EvyV.C17.same_height_on_all_paths", "EvyV.C17.never_stuck",
+            "EvyV.C17.empty_at_exit", "EvyV.C17.step_has_operands",
+            "EvyV.C17.inv_run", "EvyV.C17.no_slot_sharing", "EvyV.C17.visible_locals_distinct", "EvyV.C17.globals_distinct",
+            "EvyV.C17.local_slots_below_localCount", "EvyV.C17.pop_records",
+        ],
+        "assumptions": ["scopes are strictly nested: operations act on the innermost table only (as in compiler.go enterScope/leaveScope)",
+                        "abstract machine: one optional 16-bit operand per instruction, stack effects as listed in BC.effect"],
+    },
 }
